@@ -500,12 +500,14 @@ def _t2(ctx: Context) -> None:
     x_t, k_t0 = meth("_calculate_client_password_x"), meth("_calculate_k")
     v = call(("glob", "pow"), S("g"), x_t, S("n"))
     s_term = call(("glob", "pow"), ("binop", "Sub", S("B"), ("binop", "Mult", k_t0, v)), ("add", (S("a"), ("binop", "Mult", u, x_t))), S("n"))
-    expect(f"{CLI}.get_shared_secret", s_term, "S = pow(B - k*pow(g, x, N), a + u*x, N)")
+    # the base may be reduced mod N first: pow(b, e, N) == pow(b % N, e, N) for the non-negative exponent a + u*x
+    s_term_red = call(("glob", "pow"), ("binop", "Mod", ("binop", "Sub", S("B"), ("binop", "Mult", k_t0, v)), S("n")), ("add", (S("a"), ("binop", "Mult", u, x_t))), S("n"))
+    expect(f"{CLI}.get_shared_secret", [s_term, s_term_red], "S = pow(B - k*pow(g, x, N), a + u*x, N)")
     expect(f"{SRP}.get_shared_secret_bytes", [call(PAD, call(TBA2, meth("get_shared_secret")), KLEN), call(PAD, call(TBA, meth("get_shared_secret")), KLEN)], "S bytes = PAD384(S)")
     # K = H(PAD(S)): the value cached and returned
     f = ctx.func(f"{SRP}.get_session_key_bytes")
     cfg = ctx.cfg(f.qualname)
-    ws = [(n, strip_sites(T.of(cfg, n, n.ast.value))) for n in cfg.nodes if n.kind == "stmt" and isinstance(n.ast, ast.Assign) and _u(n.ast.targets[0]) == "self._session_key"]
+    ws = [(n, strip_sites(T.of(cfg, n, n.ast.value))) for n in cfg.nodes if n.kind == "stmt" and isinstance(n.ast, ast.Assign) and any(_u(tg_) == "self._session_key" for tg_ in n.ast.targets)]
     rets = [strip_sites(T.of(cfg, n, n.exprs[0])) for n in cfg.nodes if n.kind == "return" and n.exprs]
     k_t = meth("digest", meth("get_shared_secret_bytes"))
     def alts(t):
@@ -534,13 +536,24 @@ def _t2(ctx: Context) -> None:
     asg = {}
     for n in icfg.nodes:
         if n.kind == "stmt" and isinstance(n.ast, ast.Assign) and isinstance(n.ast.targets[0], ast.Attribute) and _u(n.ast.targets[0].value) == "self":
-            asg[n.ast.targets[0].attr] = _norm(strip_sites(T.of(icfg, n, n.ast.value)))
+            v_ = _norm(strip_sites(T.of(icfg, n, n.ast.value)))
+            a_ = n.ast.targets[0].attr
+            # several stores of one attribute (a conditional assignment): every value it can be given
+            asg[a_] = v_ if a_ not in asg or asg[a_] == v_ else ("phi", (asg[a_][1] if asg[a_][0] == "phi" else (asg[a_],)) + (v_,))
     rows = {
         "a": meth("generate_private_key"),
         "A": call(("glob", "pow"), S("g"), S("a"), S("n")),
         "A_b": call(PAD, call(TBA, S("A")), KLEN),
         "k": meth("_calculate_k"),
     }
+    def _unpassed(t_):
+        """alternatives of t_ without a constructor parameter that has a default and that no caller in the package passes"""
+        alts_ = [x_ for y_ in t_[1] for x_ in (_unpassed(y_)[1] if _unpassed(y_)[0] == "phi" else [_unpassed(y_)])] if t_[0] == "phi" else [t_]
+        keep = [x_ for x_ in alts_ if not (x_[0] == "param" and ctx.param_never_passed(init, x_[1]))]
+        keep = keep or alts_
+        return keep[0] if len(keep) == 1 else ("phi", tuple(keep))
+
+    asg = {k_: _unpassed(v_) for k_, v_ in asg.items()}
     for a, w in rows.items():
         if a == "k" and a not in asg and not any(isinstance(x, ast.Attribute) and x.attr == "k" and _u(x.value) == "self" for cn in (CLI, SRP)
                                                     for g in ctx.prog.cls(cn).methods.values() for x in ast.walk(g.node)):
